@@ -61,6 +61,11 @@ fn read_programs(n: usize, tier: Tier) -> Vec<(String, ReadPlan)> {
         v.push(("rn".to_string(), sz(vec![n.max(1)])));
         v.push(("r100000".to_string(), sz(vec![100000])));
         v.push(("alt1-4096".to_string(), sz(vec![1, 4096])));
+        // the other methods of `Read`
+        v.push(("read_vectored".to_string(), ReadPlan::OtherMethod { method: 0 }));
+        v.push(("read_exact".to_string(), ReadPlan::OtherMethod { method: 1 }));
+        v.push(("bytes".to_string(), ReadPlan::OtherMethod { method: 2 }));
+        v.push(("read_to_string".to_string(), ReadPlan::OtherMethod { method: 3 }));
     }
     v
 }
@@ -166,6 +171,47 @@ fn cases(tier: Tier) -> &'static Vec<Case> {
                     half_close: true,
                     nontrivial: true,
                 });
+            }
+        }
+        // the chunked coding named in other valid ways: in a list after another coding, on a
+        // second Transfer-Encoding line, in another letter case, with and without a Content-Length
+        for n in if deep(tier) { vec![0usize, 3, 1025, 3000] } else { vec![3usize, 1025] } {
+            let body = payload(n);
+            let one: Vec<usize> = if n == 0 { vec![] } else { vec![n] };
+            for (tl, te_lines) in [
+                ("gzip+chunked-list", vec!["Transfer-Encoding: gzip, chunked"]),
+                ("gzip+chunked-list-tight", vec!["Transfer-Encoding: gzip,chunked"]),
+                ("gzip-then-chunked-lines", vec!["Transfer-Encoding: gzip", "Transfer-Encoding: chunked"]),
+                ("identity-then-chunked-lines", vec!["transfer-encoding: identity", "TRANSFER-ENCODING: Chunked"]),
+                ("chunked-caps", vec!["Transfer-Encoding: CHUNKED"]),
+            ] {
+                for cl in [None, Some(n), Some(n + 4)] {
+                    for cl_first in [false, true] {
+                        if cl.is_none() && cl_first {
+                            continue;
+                        }
+                        let mut h = "POST /b HTTP/1.1\r\nHost: t\r\n".to_string();
+                        let cl_line = cl.map(|c| format!("Content-Length: {}\r\n", c)).unwrap_or_default();
+                        if cl_first {
+                            h.push_str(&cl_line);
+                        }
+                        for l in &te_lines {
+                            h.push_str(l);
+                            h.push_str("\r\n");
+                        }
+                        if !cl_first {
+                            h.push_str(&cl_line);
+                        }
+                        h.push_str("\r\n");
+                        let mut m = h.into_bytes();
+                        m.extend_from_slice(&chunked(&body, &one, SizeSyntax::Lower));
+                        for (rl, rp) in read_programs(n, tier).into_iter().take(5) {
+                            let mut bytes = m.clone();
+                            bytes.extend_from_slice(&get("/next"));
+                            v.push(Case { label: format!("te-{}/len{}/cl{:?}/{}", tl, n, cl, rl), bytes, read: rp, half_close: false, nontrivial: n > 0 });
+                        }
+                    }
+                }
             }
         }
         // every framing again on HTTP/1.0 keep-alive requests (the framing rules, including the
@@ -392,7 +438,7 @@ impl Check for C03 {
     }
     fn rule(&self, tier: Tier) -> String {
         let own = format!(
-            "every framing also on HTTP/1.0 keep-alive requests (lengths 0, 3, 1025; thorough 0, 1, 3, 1024, 1025, 3000); bodies of 1 / 1024 / 1025 / 20000 bytes (declared, chunked) after a history of 64 / 100 / 1024 (thorough: 19 lengths from 63 to 4097) answered exchanges; bodies of 1 MiB+1 (thorough: also 3 MiB+5) declared / chunked by 65536 / chunked in one piece, read by 4096 / 100000 / n+1 / read_to_end; body length {:?} x framing {{Content-Length; chunked with chunkings one/bytewise/cut1/cutlast/cut1024/8k/thirds; Content-Length together with chunked in both header orders with equal and different values; none; Connection: upgrade}} x application read program {:?} (+2 reads after end-of-stream) x following bytes {:?}; plus chunk-size syntax {:?} and header-name/value letter case for lengths <= 1025 with read sizes 1/7/4096; plus every composition of bodies of 1..{} bytes; {} conversations, each on a real connection; bytes obtained, end-of-stream position and stickiness, body_length() and the fate of the following bytes compared with the reference model; non-trivial = body length > 0",
+            "the chunked coding named as the last member of a list, on a second Transfer-Encoding line, in capitals, with and without Content-Length; every framing also on HTTP/1.0 keep-alive requests (lengths 0, 3, 1025; thorough 0, 1, 3, 1024, 1025, 3000); bodies of 1 / 1024 / 1025 / 20000 bytes (declared, chunked) after a history of 64 / 100 / 1024 (thorough: 19 lengths from 63 to 4097) answered exchanges; bodies of 1 MiB+1 (thorough: also 3 MiB+5) declared / chunked by 65536 / chunked in one piece, read by 4096 / 100000 / n+1 / read_to_end; body length {:?} x framing {{Content-Length; chunked with chunkings one/bytewise/cut1/cutlast/cut1024/8k/thirds; Content-Length together with chunked in both header orders with equal and different values; none; Connection: upgrade}} x application read program {:?} (+2 reads after end-of-stream) x following bytes {:?}; plus chunk-size syntax {:?} and header-name/value letter case for lengths <= 1025 with read sizes 1/7/4096; plus every composition of bodies of 1..{} bytes; {} conversations, each on a real connection; bytes obtained, end-of-stream position and stickiness, body_length() and the fate of the following bytes compared with the reference model; non-trivial = body length > 0",
             lengths(tier), read_programs(0, tier).iter().map(|x| x.0.clone()).collect::<Vec<_>>(), tails(tier).iter().map(|t| t.0).collect::<Vec<_>>(), ALL_SYNTAX, if full(tier) { 6 } else { 4 }, cases(tier).len()
         );
         format!("{} || {} {:?}", own, crate::props::product::RULE, PRODUCT_CLAUSES)
